@@ -70,7 +70,7 @@ func vOkind(spec *OpSpec) string {
 	}{
 		{opBnz2B, "OpBnz2B"}, {opBz2B, "OpBz2B"}, {opB2B, "OpB2B"}, {opCallSub2B, "OpCallsub2B"},
 		{opBnz, "OpBnzV"}, {opBz, "OpBzV"}, {opB, "OpBV"}, {opCallSub, "OpCallsubV"},
-		{opSwitch, "OpSwitch"}, {opMatch, "OpMatch"}, {opRetSub, "OpRetsub"},
+		{opSwitch, "OpSwitch"}, {opMatch, "OpMatch"}, {opRetSub, "OpRetsub"}, {opReturn, "OpReturn"},
 		{opIntConstBlock, "OpIntcBlock"}, {opByteConstBlock, "OpBytecBlock"},
 		{opPushInts, "OpPushInts"}, {opPushBytess, "OpPushBytess"},
 		{opPushInt, "OpPushInt"}, {opPushBytes, "OpPushBytes"},
@@ -218,7 +218,7 @@ func TestVerifAvmGen(t *testing.T) {
 	sb.WriteString("(* GENERATED on every run by harness/go/data/transactions/logic/zz_verif_avmtables_test.go:\n" +
 		"   TestVerifAvmGen from the running package data/transactions/logic (OpSpecs, opsByOpcode as built\n" +
 		"   by init(), field groups, doc.go:OpGroups, frame constants).  Never edit. *)\n")
-	sb.WriteString("From Coq Require Import List NArith ZArith String.\nFrom Verif.model Require Import AvmTypes.\nImport ListNotations.\nOpen Scope string_scope.\nOpen Scope N_scope.\n\n")
+	sb.WriteString("From Coq Require Import List NArith ZArith String.\nFrom Verif.model Require Import AvmTypes.\nImport ListNotations.\nLocal Open Scope string_scope.\nLocal Open Scope N_scope.\n\n")
 	fmt.Fprintf(&sb, "Definition logic_version : N := %d.\n", LogicVersion)
 	fmt.Fprintf(&sb, "Definition max_stack_depth : N := %d.\n", maxStackDepth)
 	fmt.Fprintf(&sb, "Definition max_string_size : N := %d.\n", maxStringSize)
